@@ -73,7 +73,11 @@ Ltac split_one :=
   | |- context [match ?m with Strict => _ | Wrapv => _ | Gnu => _ end] => is_var m; destruct m
   end.
 
-Ltac cleaf := first [reflexivity | (exfalso; expose_ranges; lia) | (expose_ranges; f_equal; lia)].
+Ltac cleaf := first [reflexivity | (exfalso; expose_ranges; lia) | (expose_ranges; f_equal; lia)
+                    | (expose_ranges; rewrite ?Z.mod_mod by lia; f_equal; lia)
+                    | (expose_ranges;
+                       repeat match goal with |- context [?x mod ?m] => rewrite (Z.mod_small x m) by lia end;
+                       f_equal; lia) ].
 Ltac prune := try (exfalso; expose_ranges; lia).
 Ltac cfinish := repeat (split_one; prune; zblack; eval_closed; bool_simpl; drop_wraps); cleaf.
 
